@@ -10,6 +10,15 @@ import (
 	"pgregory.net/rapid"
 )
 
+// ctxLive: the context of every call must be live when the call starts. A dead one is reported as a
+// failure that the harness did *not* signal, so the "failed without falsification" / "innocent case
+// blamed" clauses fire.
+func ctxLive(t *rapid.T) {
+	if err := t.Context().Err(); err != nil {
+		t.Fatalf("harness: T.Context() is already cancelled at the start of the call: %v", err)
+	}
+}
+
 func (e *Env) noteDraw(label string, v any) {
 	e.cur.DrawLog = append(e.cur.DrawLog, fmt.Sprintf("%s: %#v", label, v))
 }
@@ -31,6 +40,7 @@ func progUniqueCtx(ctx string, base Beh) *LazyProgram {
 	switch ctx {
 	case "body":
 		p.Body = func(t *rapid.T, e *Env) {
+			ctxLive(t)
 			x := rapid.Uint64().Draw(t, "x")
 			e.noteDraw("x", x)
 			e.cur.Draws = fmt.Sprint(x)
@@ -98,6 +108,7 @@ func progThreshold(T int16) *LazyProgram {
 	return &LazyProgram{
 		Name: fmt.Sprintf("int16>=%d", T),
 		Body: func(t *rapid.T, e *Env) {
+			ctxLive(t)
 			x := rapid.Int16().Draw(t, "x")
 			e.noteDraw("x", x)
 			e.cur.Draws = fmt.Sprint(x)
@@ -155,6 +166,29 @@ func progTwoSites() *LazyProgram {
 			return BPass
 		},
 	}
+}
+
+// progSameMessage: two pairs of failure sites whose messages coincide (FailNow at C and D, division by
+// zero at two places): only the call stack tells them apart. The site found first needs a bigger input.
+func progSameMessage() *LazyProgram {
+	p := progTwoSites()
+	p.Name = "two-sites-same-message"
+	p.Base = func(ctx, d string) Beh {
+		var x, y int
+		fmt.Sscanf(d, "%d,%d", &x, &y)
+		switch {
+		case x >= 100 && y >= 10:
+			return BFailNowC
+		case x < 100 && y >= 50:
+			return BFailNowD
+		case x >= 100 && y == 3:
+			return BPanicDivA
+		case x < 100 && y == 4:
+			return BPanicDivB
+		}
+		return BPass
+	}
+	return p
 }
 
 // progGen: a rejection-based generator consumer; fails (behaviour fb) iff pred(rendered value).
@@ -269,13 +303,15 @@ func progCustomCleanup() *LazyProgram {
 
 // AllFalsifying lists every failure kind of C02.
 var AllFalsifying = []Beh{BErrorf, BError, BFail, BFatalA, BFatal, BFailNowC, BPanicStr, BPanicErr, BPanicStruct, BPanicNil, BNilDeref, BIndexOOR,
-	BCleanupErrorf, BCleanupPanic, BCleanupFatal, BCleanupCleanupErrorf, BGoErrorf, BGoFail, BErrorfSkip}
+	BCleanupErrorf, BCleanupPanic, BCleanupFatal, BCleanupCleanupErrorf, BGoErrorf, BGoFail, BErrorfReject, BErrorEmpty, BErrorfEmpty, BCleanupErrorfSkip, BErrorfSkip}
 
 // ExpectedText returns a substring the failure message must contain when b is reported for input msg.
 func ExpectedText(b Beh, msg string) string {
 	switch b {
-	case BErrorf, BErrorfSkip:
+	case BErrorf, BErrorfSkip, BErrorfReject:
 		return "nonfatal: " + msg
+	case BCleanupErrorfSkip:
+		return "nonfatal in cleanup: " + msg
 	case BError:
 		return "nonfatal:" + msg // fmt.Sprint puts no space between two string operands
 	case BFail:
@@ -284,8 +320,10 @@ func ExpectedText(b Beh, msg string) string {
 		return "site A: " + msg
 	case BFatalB:
 		return "site B: " + msg
-	case BFailNowC:
+	case BFailNowC, BFailNowD:
 		return "(*T).FailNow() called"
+	case BPanicDivA, BPanicDivB:
+		return "integer divide by zero"
 	case BFatal:
 		return "fatal:"
 	case BPanicStr:
